@@ -37,6 +37,9 @@ pub fn games() -> Vec<(String, Tree)> {
             ("bad", node(2, "deep", vec![("a", t(3)), ("b", t(4)), ("c", node(1, "y", vec![("l", t(5)), ("r", t(6))]))])),
         ]),
     ));
+    // no decision at all (games 13 and 14): only chance, forced moves and terminals
+    v.push(("nodecision".to_string(), Tree::C { ci: "c".into(), kids: vec![tree::CKid { w: Num::I(1), t: t(1) }, tree::CKid { w: Num::I(3), t: t(-2) }] }));
+    v.push(("forced".to_string(), node(1, "only1", vec![("go", node(2, "only2", vec![("go", t(3))]))])));
     v
 }
 
